@@ -24,7 +24,7 @@ func (c17) Budget(tier string) int {
 	if tier == "thorough" {
 		return 60000
 	}
-	return 2100
+	return 12600
 }
 
 func (c17) Describe() engine.Info {
